@@ -617,12 +617,12 @@ typename std::enable_if<ext_traits::integer_limits<T>::is_specialized && ext_tra
 hex_to_integer(const CharT* s, std::size_t length, T& n)
 {
     static_assert(ext_traits::integer_limits<T>::is_specialized, "Integer type not specialized");
+    n = 0;
     if (length == 0)
     {
         return to_number_result<CharT>(s, std::errc::invalid_argument);
     }
 
-    n = 0;
 
     const CharT* end = s + length; 
     if (*s == '-')
@@ -704,12 +704,12 @@ typename std::enable_if<ext_traits::integer_limits<T>::is_specialized && !ext_tr
 hex_to_integer(const CharT* s, std::size_t length, T& n)
 {
     static_assert(ext_traits::integer_limits<T>::is_specialized, "Integer type not specialized");
+    n = 0;
     if (length == 0)
     {
         return to_number_result<CharT>(s, std::errc::invalid_argument);
     }
 
-    n = 0;
     const CharT* end = s + length; 
 
     static constexpr T max_value = (ext_traits::integer_limits<T>::max)();
